@@ -152,6 +152,12 @@ fn replay(id: &str, path: &str) -> i32 {
                     c01_history_dfs(&ctx, &p, depth);
                 }
             }
+            "long_line" => {
+                let fen = case["fen"].as_str().unwrap_or("");
+                if let Ok(p) = Pos::from_fen(fen) {
+                    long_line(&ctx, &p, case["plies"].as_u64().unwrap_or(3000) as usize, case["rule"].as_u64().unwrap_or(7));
+                }
+            }
             "line" => {
                 let fen = case["fen"].as_str().unwrap_or("");
                 let depth = case["line"].as_array().map(|a| a.len()).unwrap_or(1);
@@ -325,6 +331,15 @@ fn run_board(prop: Prop, tier: Tier) -> i32 {
             fams.push(json!({"family": format!("depth-first make^j/unmake^j lines on one board instance, j<={}", d), "roots": roots.len(), "nodes": nodes, "secs": t0.elapsed().as_secs_f64()}));
         }
         _ => {}
+    }
+    if matches!(prop, Prop::C02 | Prop::C03 | Prop::C06) {
+        let t0 = Instant::now();
+        let plies = if tier == Tier::Quick { 3_000 } else { 12_000 };
+        let walk_roots: Vec<Pos> = ROOT_FENS.iter().take(10).map(|f| Pos::from_fen(f).unwrap()).collect();
+        let jobs: Vec<(usize, u64)> = (0..walk_roots.len()).flat_map(|i| [(i, 7u64), (i, 1_000_003u64)]).collect();
+        let made: u64 = par_map_fine(&jobs, |&(i, rule)| long_line(&ctx, &walk_roots[i], plies, rule)).iter().sum();
+        extra_states += made;
+        fams.push(json!({"family": format!("long lines on one board instance: up to {} plies made then unmade in reverse (2 fixed move-choice rules x 10 roots)", plies), "plies_made": made, "secs": t0.elapsed().as_secs_f64()}));
     }
     if prop == Prop::C06 {
         let t0 = Instant::now();
